@@ -200,7 +200,10 @@ def reader_closure(P):
     return roots, seen
 
 
-INTERIOR_WORDS = ("Mutex<", "RwLock<", "Atomic", "Cell<", "RefCell<", "UnsafeCell<", "OnceCell<", "OnceLock<", "LazyLock<", "LazyCell<")
+INTERIOR_WORDS = ("Mutex<", "RwLock<", "Atomic", "Cell<", "RefCell<", "UnsafeCell<", "OnceCell<", "OnceLock<", "LazyLock<", "LazyCell<",
+                  # synchronisation objects: permits / notifications shared between calls make one call wait for another (a lookup that holds a
+                  # permit and the cache lock while it waits for a second permit never returns once enough callers are in flight)
+                  "Semaphore", "Notify", "Barrier", "Condvar", "mpsc::", "broadcast::", "watch::")
 ACCEPTED_INTERIOR = ("OnceLock<", "LazyLock<")
 
 
